@@ -88,6 +88,21 @@ SIGNATURE RECORD  (one per translate_function call, emitted after the defs)
   In the range checks themselves the gate and the reduction stay visible: `PyFn.warnGate && (PyFn.anyS (decide (t < ..)) || ..)`
   (`Basic/PyFn.lean`: reducible identities; `simp only [PyFn.warnGate, PyFn.anyS, Bool.true_and]` removes them).
 
+TYPE-SENSITIVE CONSTRUCTS (audit of what the translator accepts; full list with reasons in /verif/notes/C17.md)
+  The Lean text is the meaning for plain Python floats.  REFUSED because the pure/scalar reading can be silently wrong:
+    `//`, `%`, `==`/`!=`, walrus, lambda, comprehensions, loops, `try`, runtime `if`/conditional expressions (except pure range-check
+    trees and the hasattr alias), truthiness of numbers (`if x:`), builtin `any`, keyword arguments of backend functions, slices;
+    a float literal that overflows / underflows in Python (`1e400`, `1e-400`); a default value that refers to a parameter
+    (`def f(x, y=x)`; defaults are evaluated at def time -- pass defaults_may_use_params=True for synthetic signatures);
+    a local variable read before assignment / assigned only in a branch not taken (UnboundLocalError, not the module constant);
+    `math` / `np` / `numpy` / `get_backend` / a bare `exp`, `log`, `sqrt`, `abs` ... that the module binds to something else
+    (accepted when unbound: extractors pass one-function modules).
+  ACCEPTED WITH A RECORD (comment `-- TYPE-SENSITIVE constructs` in Gen, `d.type_notes`; `d.impure` / `…InPlace` for op=):
+    `x ** -n` (integer arrays raise), non-integer `**` (negative float base -> complex in Python), chained comparisons and `and`/`or`
+    directly on comparisons in range tests (arrays raise), `x op= e` on parameters / aliases (mutates the caller's array).
+  ACCEPTED, meaning differs only outside the float domain and is covered by hypotheses / driver guards: `/` by zero (ZeroDivisionError
+    vs 0 in ℝ and Rat, inf in Float), `sqrt`/`log`/`atanh` outside their domain (ValueError / nan vs Mathlib junk values).
+
 ACCEPTED PYTHON SUBSET (everything else => ExtractError with line number)
   statements  docstring; `x = e`; `x = y = e` (chained); `x: float = e`; `x op= e` for + - * / ** (read as `x = x op e`;
               when `x` is a parameter or an alias of another name this is NOT what Python does for array arguments:
@@ -318,6 +333,10 @@ class _Tr:
         self.used = set()
         self.skipped = []         # ast.dump of every statement / expression the translation did not visit
         self.warn_src = []        # source-level record of every warnings.warn call with its guard chain
+        self.modbind = {}         # module-level bindings {name: [kinds]} and import origins (set by translate_function)
+        self.modimports = {}      # {local name: 'module' | 'module.attr'} of module-level imports
+        self.local_names = set()  # names assigned somewhere in the function body (Python: local for the WHOLE body)
+        self.type_notes = []      # constructs whose meaning depends on the argument type (see module docstring)
         self.impure = []          # in-place updates that are not pure re-bindings (impure_augassigns)
         self.backend_src = []     # how the backend is obtained and which of its attributes are used (source text, first use)
 
@@ -336,18 +355,27 @@ class _Tr:
             if isinstance(v, int):
                 return Sc(int_lit(v))
             if isinstance(v, float):
-                return Sc(float_lit(seg(self.src, n)))
+                txt = seg(self.src, n) or repr(v)
+                if v in (float('inf'), float('-inf')) or (v == 0.0 and num_text_to_fraction(txt.replace('_', '')) != 0):
+                    self.err(n, 'float literal overflows / underflows in Python (inf or 0.0) but is an exact number in Lean')
+                return Sc(float_lit(txt))
             if isinstance(v, str):
                 return StrV(v)
             self.err(n, 'unsupported literal')
         if isinstance(n, ast.Name):
             if n.id in self.env:
                 return self.env[n.id]
+            if n.id in self.local_names:
+                # assigned somewhere in this function (perhaps in a branch this specialisation does not take): Python treats it
+                # as a local everywhere in the body -> reading it here is an UnboundLocalError, not the module constant
+                self.err(n, 'local variable read before assignment (UnboundLocalError in Python)')
             if n.id in self.const_env:
                 return self.const_env[n.id]
             if n.id in self.backend_names:
+                self.check_origin(n, ('math', 'numpy'), module=True)
                 return Backend()
             if n.id == 'get_backend':
+                self.check_origin(n, ('_util.get_backend', 'chempy._util.get_backend', '.get_backend'))
                 return Fn('get_backend')
             if n.id == 'hasattr':
                 return Fn('hasattr')
@@ -357,7 +385,9 @@ class _Tr:
                 self.err(n, 'builtin any() of a scalar comparison raises TypeError (use _any / numpy.any)')
             if n.id in self.extra_calls:
                 return Fn(('call', self.extra_calls[n.id]))
-            if n.id in self.funcs:      # `from math import exp`
+            if n.id in self.funcs:      # `from math import exp` / builtin abs
+                if n.id != 'abs' or n.id in self.modbind:
+                    self.check_origin(n, ('math.' + n.id, 'numpy.' + n.id), required=(n.id != 'abs'))
                 return Fn(n.id)
             self.err(n, 'unknown name')
         if isinstance(n, ast.Attribute):
@@ -435,6 +465,25 @@ class _Tr:
             return self.call(n)
         self.err(n, 'expression outside the subset')
 
+    def check_origin(self, n, allowed, module=False, required=False):
+        """a bare name that the translator gives a fixed meaning (math / np / get_backend / exp ...) must not be bound to something
+        else at module level.  Unbound is accepted (extractors pass one-function modules without the imports) unless required."""
+        kinds = self.modbind.get(n.id)
+        if not kinds:
+            if required and self.modbind.get('__has_imports__'):
+                self.err(n, 'bare function name that is not imported from math / numpy in this module')
+            return
+        org = self.modimports.get(n.id)
+        ok = kinds == ['import'] and org is not None and (
+            (module and org in allowed) or (not module and any(org == a or org.endswith(a) for a in allowed)))
+        if not ok:
+            self.err(n, 'the module binds `%s` to something the translator does not know (%s%s)'
+                     % (n.id, ', '.join(kinds), '' if org is None else ': ' + org))
+
+    def note_type(self, text):
+        if text not in self.type_notes:
+            self.type_notes.append(text)
+
     def note_backend(self, text):
         if text not in self.backend_src:
             self.backend_src.append(text)
@@ -469,7 +518,11 @@ class _Tr:
             return Sc('(Num.npow %s %d)' % (b, e.value))
         if (isinstance(e, ast.UnaryOp) and isinstance(e.op, ast.USub) and isinstance(e.operand, ast.Constant)
                 and isinstance(e.operand.value, int) and not isinstance(e.operand.value, bool)):
+            self.note_type('line %s: `%s`: negative integer exponent -- ValueError for integer numpy arrays, ZeroDivisionError for 0'
+                           % (getattr(n, 'lineno', '?'), ast.unparse(n)))
             return Sc('(%s / (Num.npow %s %d))' % (nat_lit(1), b, e.operand.value))
+        self.note_type('line %s: `%s`: non-integer power -- a negative float base gives a COMPLEX number in Python (nan in Float, a real '
+                       'junk value in ℝ): state base ≥ 0 in theorems' % (getattr(n, 'lineno', '?'), ast.unparse(n)))
         self.classes.add('HasRPow')
         return Sc('(HasRPow.rpow %s %s)' % (b, self.num(e)))
 
@@ -551,6 +604,9 @@ class _Tr:
         if s is not None and not self.has_gate(n):
             return 'true' if s else 'false'
         if isinstance(n, ast.BoolOp):
+            if any(isinstance(v, ast.Compare) and not isinstance(v.ops[0], (ast.Is, ast.IsNot)) for v in n.values):
+                self.note_type('line %s: `%s`: and/or directly on comparisons -- scalar meaning only (ValueError for arrays; '
+                               'wrap each comparison in _any)' % (getattr(n, 'lineno', '?'), ast.unparse(n)))
             parts = [self.cond(v) for v in n.values]
             if isinstance(n.op, ast.And):
                 if 'false' in parts:
@@ -572,6 +628,9 @@ class _Tr:
         if isinstance(n, ast.Compare):
             ops = {ast.Lt: ('<', 'LT'), ast.Gt: ('>', 'LT'), ast.LtE: ('≤', 'LE'), ast.GtE: ('≥', 'LE')}
             terms = [n.left] + list(n.comparators)
+            if len(n.ops) > 1:
+                self.note_type('line %s: `%s`: chained comparison -- scalar meaning only (ValueError for arrays)'
+                               % (getattr(n, 'lineno', '?'), ast.unparse(n)))
             parts = []
             for i, op in enumerate(n.ops):
                 for k, (s_, cls) in ops.items():
@@ -936,7 +995,7 @@ def _sig_record(f, src, tr, largs, fixed, objects, extra_skipped):
 def translate_function(src, tree, funcname, *, lean_name=None, const_env=None, params=None, objects=(),
                        units_mode=None, fixed=None, backend_names=('be', 'backend', 'math', 'np', 'numpy'),
                        extra_funcs=None, extra_calls=None, cond_hook=None, split_tuple=False,
-                       inline_lets=False, doc=None, extra_skipped=None, allow_decorators=()):
+                       inline_lets=False, doc=None, extra_skipped=None, allow_decorators=(), defaults_may_use_params=False):
     f = find_unique_def(tree, funcname)
     if not isinstance(f, ast.FunctionDef):
         raise ExtractError('%s is not a function' % funcname)
@@ -966,6 +1025,20 @@ def translate_function(src, tree, funcname, *, lean_name=None, const_env=None, p
         if p not in allp:
             raise ExtractError('%s has no parameter %s' % (funcname, p))
     used_names = {x.id for x in ast.walk(f) if isinstance(x, ast.Name)}
+    tr.modbind = dict(module_bindings(tree))
+    tr.modbind.pop(funcname, None)
+    for st in _module_scope(tree.body):
+        if isinstance(st, ast.Import):
+            for al in st.names:
+                tr.modimports[(al.asname or al.name).split('.')[0]] = al.name
+        elif isinstance(st, ast.ImportFrom):
+            for al in st.names:
+                tr.modimports[al.asname or al.name] = '%s%s.%s' % ('.' * st.level, st.module or '', al.name)
+    if tr.modimports:
+        tr.modbind['__has_imports__'] = ['yes']
+    # evaluate the defaults FIRST, in an environment without the parameters (Python evaluates them once, at `def` time, in the
+    # module namespace: `def f(x, y=x)` does not mean "y defaults to the argument x")
+    default_vals = {}
     largs, pyargs = [], []
     for p in params:
         largs.append(lean_ident(p))
@@ -986,7 +1059,14 @@ def translate_function(src, tree, funcname, *, lean_name=None, const_env=None, p
         elif p in tr.backend_names and isinstance(defaults[p], ast.Constant) and defaults[p].value is None:
             tr.env[p] = NoneV()    # `get_backend(backend)` ignores its argument; `backend.f` is resolved by name
         else:
-            v = tr.ev(defaults[p])
+            if defaults_may_use_params:
+                v = tr.ev(defaults[p])
+            else:
+                saved, tr.env = tr.env, {}
+                try:
+                    v = tr.ev(defaults[p])
+                finally:
+                    tr.env = saved
             if isinstance(v, Sc) and p in used_names:
                 tr.bind(p, v, defaults[p])
             elif not isinstance(v, Sc):
@@ -995,6 +1075,16 @@ def translate_function(src, tree, funcname, *, lean_name=None, const_env=None, p
     for p in allp:
         if p in tr.backend_names and isinstance(tr.env.get(p), NoneV):
             del tr.env[p]
+    all_params = set(allp)
+    tr.local_names = {nm for st in ast.walk(f) for nm, _ in (_bound_names(st) if isinstance(st, ast.stmt) and st is not f else [])
+                      if nm not in all_params}
+    tr.local_names -= set(tr.env)          # defaulted parameters bound above
+    _orig_bind = tr.bind
+
+    def _bind(name, v, node):
+        tr.local_names.discard(name)
+        return _orig_bind(name, v, node)
+    tr.bind = _bind
     ret = tr.block(f.body)
     if ret is None:
         raise ExtractError('%s: no return statement reached' % funcname)
@@ -1053,6 +1143,9 @@ def translate_function(src, tree, funcname, *, lean_name=None, const_env=None, p
         out.append('/-- the messages `%s(..., warn=True)` passes to warnings.warn, in order -/\ndef %s %s : List String :=\n%s'
                    % (funcname, msgs_name, whead,
                       body(tr.lets[:nl], ' ++ '.join('(if %s then [%s] else [])' % (c, lean_str(m)) for _, c, m in tr.warns))))
+    if tr.type_notes:
+        out.append('-- TYPE-SENSITIVE constructs of `%s` (the Lean text has the SCALAR FLOAT meaning; see pyfn2lean "TYPE-SENSITIVE"):\n%s\n'
+                   % (funcname, '\n'.join('--   ' + x.replace('\n', ' ') for x in tr.type_notes)))
     tr.impure = impure_augassigns(f)
     if tr.impure:
         # the pure text above is NOT what the Python does for array arguments: say so in Gen (and in @skipped, which opens the guard)
@@ -1068,7 +1161,7 @@ def translate_function(src, tree, funcname, *, lean_name=None, const_env=None, p
                'def %s : List (String × String) :=\n  [%s]\n'
                % (funcname, lean_name, sig_name, ',\n   '.join('(%s, %s)' % (lean_str(k), lean_str(v)) for k, v in sig)))
     d = LeanDef('\n'.join(out))
-    d.sig_name, d.sig, d.unit_args, d.impure = sig_name, sig, unit_args, tr.impure
+    d.sig_name, d.sig, d.unit_args, d.impure, d.type_notes = sig_name, sig, unit_args, tr.impure, list(tr.type_notes)
     d.name, d.names, d.args, d.pyargs, d.classes = lean_name, names, largs, pyargs, classes
     d.n_results, d.warn_name, d.warn_msgs_name, d.warn_classes, d.pyname = nres, warn_name, msgs_name, wclasses, funcname
     return d
@@ -1265,6 +1358,15 @@ SELFTEST_BAD = [
     'def f(x, warn=True):\n    if warn and any(x < 0):\n        warnings.warn("m")\n    return x\n',   # builtin any
     'B = 2.0\nB += 1\ndef f(x):\n    return B * x\n',                            # modified module constant
     'B = 2.0\nB = 3.0\ndef f(x):\n    return B * x\n',                           # module constant assigned twice
+    'def f(x, y=x):\n    return x * y\n',                                         # default refers to a parameter
+    'def f(x):\n    return 1e400 * x\n',                                          # literal overflows to inf in Python
+    'def f(x):\n    return 1e-400 + x\n',                                         # literal underflows to 0.0 in Python
+    'B = 2.0\ndef f(x, units=None):\n    if units is not None:\n        B = 3.0\n    return B * x\n',   # UnboundLocalError
+    'def exp(x):\n    return x\ndef f(x):\n    return exp(x)\n',                  # module-level exp is not math.exp
+    'import cupy as np\ndef f(x):\n    return np.exp(x)\n',                       # np is not numpy
+    'def get_backend(b):\n    return b\ndef f(x, backend=None):\n    be = get_backend(backend)\n    return be.exp(x)\n',
+    'def f(x):\n    return (y := x) * y\n',                                       # walrus
+    'def f(x):\n    return x // 2 + x % 3\n',
 ]
 
 
